@@ -4,6 +4,12 @@ P = {'id': 'C17',
  'theorems': ['spec_size_le_cap',
               'lru_refines',
               'lru_size_le_cap',
+              'lru_evicts_oldest_last_access',
+              'spec_callback_exact',
+              'spec_keys_distinct',
+              'spec_put_then_get',
+              'cmap_per_shard',
+              'cmap_shard_is_lru',
               'read_correct',
               'page_cache_history_correct',
               'cached_get_is_inner_get'],
